@@ -233,9 +233,28 @@ class Exec:
     # ------------------------------------------------------------------ function execution
     def resolve(self, path, nargs):
         """find a crate-local definition for a call path"""
-        name = strip_generics(path) if not path.startswith("<") else None
-        if name is None:
+        if path.startswith("<"):
+            # <Self as Trait>::method implemented in the crate (e.g. derived PartialEq/Clone)
+            nm = normalize_callee(path)
+            m = re.match(r"^<(\S+) as (\S+)>::(\w+)$", nm)
+            if not m:
+                return None
+            selfn, method = m.group(1), m.group(3)
+            cands = [f for f in self.prog.by_short.get(method, []) if f.nparams == nargs and "{closure" not in f.name
+                     and "<impl at" in f.name and 1 in f.param_types and base_type_name(f.param_types[1]) == selfn]
+            if len(cands) > 1:
+                raw_self = strip_generics(split_top_as(path[1:path.index(">::")] if ">::" in path else path[1:])[0]).replace("&", "").strip()
+                mods = [x for x in raw_self.split("::")[:-1] if x]
+                if mods:
+                    c2 = [f for f in cands if f.name.startswith(mods[-1] + "::") or ("::" + mods[-1] + "::") in f.name]
+                    if c2:
+                        cands = c2
+            if len(cands) == 1:
+                return cands[0]
+            if len(cands) > 1:
+                raise Unsupported(f"ambiguous trait impl {path}: {[f.name for f in cands]}")
             return None
+        name = strip_generics(path)
         segs = [s for s in name.split("::") if s]
         cands = self.prog.by_short.get(segs[-1], [])
         cands = [f for f in cands if f.nparams == nargs and "{closure" not in f.name]
@@ -363,6 +382,8 @@ class Exec:
             r = self.read(locs, node[1])
             if isinstance(r, Ref):
                 return r
+            if isinstance(r, Str):
+                return Ref(Cell(r))      # &str values are represented by the string itself
             raise Unsupported(f"deref of non-reference {r!r}")
         if k == "field":
             r = self.place_ref(locs, node[1])
@@ -461,6 +482,8 @@ class Exec:
             if sp and t.startswith("{closure@"):
                 return Closure(sp.group(1), [])
             return FnItem(t)
+        if c.startswith("{alloc"):
+            return Opaque("static", what=c)
         m = re.match(r"^(.*)::promoted\[(\d+)\]$", c)
         if m:
             want = "promoted[%s]" % m.group(2)
